@@ -378,6 +378,88 @@ enum StrStyle {
 // Numeric anchor id used internally.
 type AnchorId = u32;
 
+/// Writer adapter that remembers how the current output line begins: its indentation and the
+/// `- ` entry indicators written on it. Block scalar headers need it, because their explicit
+/// indentation indicator counts from the column of the enclosing key or dash.
+struct LineTracker<'a, W: Write> {
+    inner: &'a mut W,
+    /// Column reached so far while the line consists of blanks and `- ` indicators only.
+    col: usize,
+    /// Column of the first character on the line that is neither indentation nor an indicator.
+    content_col: Option<usize>,
+    /// Column of the last `- ` indicator on the line.
+    last_dash_col: Option<usize>,
+    /// A `-` was seen and it is not yet known whether a blank follows.
+    open_dash: Option<usize>,
+}
+
+impl<'a, W: Write> LineTracker<'a, W> {
+    fn new(inner: &'a mut W) -> Self {
+        Self {
+            inner,
+            col: 0,
+            content_col: None,
+            last_dash_col: None,
+            open_dash: None,
+        }
+    }
+
+    fn start_line(&mut self) {
+        self.col = 0;
+        self.content_col = None;
+        self.last_dash_col = None;
+        self.open_dash = None;
+    }
+
+    fn observe(&mut self, s: &str) {
+        let mut rest = s;
+        if let Some(p) = rest.rfind('\n') {
+            self.start_line();
+            rest = &rest[p + 1..];
+        }
+        if self.content_col.is_some() {
+            return;
+        }
+        for ch in rest.chars() {
+            match (ch, self.open_dash) {
+                (' ', Some(d)) => {
+                    self.last_dash_col = Some(d);
+                    self.open_dash = None;
+                }
+                (' ', None) => {}
+                ('-', None) => self.open_dash = Some(self.col),
+                (_, Some(d)) => {
+                    // `-` followed by something else: it was content
+                    self.content_col = Some(d);
+                    return;
+                }
+                (_, None) => {
+                    self.content_col = Some(self.col);
+                    return;
+                }
+            }
+            self.col += 1;
+        }
+    }
+
+    /// Column of the innermost key written on the current line (if any).
+    fn key_col(&self) -> Option<usize> {
+        self.content_col
+    }
+
+    /// Column of the innermost `- ` written on the current line (if any).
+    fn dash_col(&self) -> Option<usize> {
+        self.last_dash_col
+    }
+}
+
+impl<W: Write> Write for LineTracker<'_, W> {
+    fn write_str(&mut self, s: &str) -> fmt::Result {
+        self.observe(s);
+        self.inner.write_str(s)
+    }
+}
+
 /// Core YAML serializer used by `to_string`, `to_fmt_writer`, and `to_io_writer` (and their `_with_options` variants).
 ///
 /// This type implements `serde::Serializer` and writes YAML to a `fmt::Write`.
@@ -405,7 +487,7 @@ type AnchorId = u32;
 /// ```
 pub struct YamlSerializer<'a, W: Write> {
     /// Destination writer where YAML text is emitted.
-    out: &'a mut W,
+    out: LineTracker<'a, W>,
     /// Spaces per indentation level for block-style collections.
     indent_step: usize,
     /// Threshold for downgrading block-string wrappers to plain scalars.
@@ -488,7 +570,7 @@ impl<'a, W: Write> YamlSerializer<'a, W> {
     /// Called by `to_writer`/`to_string` entry points.
     pub fn new(out: &'a mut W) -> Self {
         Self {
-            out,
+            out: LineTracker::new(out),
             indent_step: 2,
             min_fold_chars: MIN_FOLD_CHARS,
             folded_wrap_col: FOLDED_WRAP_CHARS,
@@ -677,7 +759,7 @@ impl<'a, W: Write> YamlSerializer<'a, W> {
     /// Delegates to the standalone function in `wrapping` module.
     fn write_folded_block(&mut self, s: &str, indent: usize) -> Result<()> {
         crate::wrapping::write_folded_block(
-            self.out,
+            &mut self.out,
             s,
             indent,
             self.indent_step,
@@ -953,7 +1035,7 @@ impl<'a, 'b, W: Write> Serializer for &'a mut YamlSerializer<'b, W> {
         if self.at_line_start {
             self.write_indent(self.depth)?;
         }
-        zmij_format::write_float_string(self.out, v)?;
+        zmij_format::write_float_string(&mut self.out, v)?;
         self.write_end_of_scalar()
     }
 
@@ -963,7 +1045,7 @@ impl<'a, 'b, W: Write> Serializer for &'a mut YamlSerializer<'b, W> {
         if self.at_line_start {
             self.write_indent(self.depth)?;
         }
-        zmij_format::write_float_string(self.out, v)?;
+        zmij_format::write_float_string(&mut self.out, v)?;
         self.write_end_of_scalar()
     }
 
@@ -1059,7 +1141,19 @@ impl<'a, 'b, W: Write> Serializer for &'a mut YamlSerializer<'b, W> {
             // We must emit an explicit indicator when the first non-empty content line
             // has leading whitespace, so the parser knows how much to strip.
             let body_base = base + 1;
-            let indent_n = self.indent_step * body_base;
+            // The indicator counts from the indentation of the parent node: the column of the
+            // key (mapping value) or of the dash (sequence entry) this scalar belongs to; for
+            // a top-level scalar it is the indentation itself.
+            let body_col = self.indent_step * body_base;
+            let parent_col = if was_map_value {
+                self.out.key_col()
+            } else {
+                self.out.dash_col()
+            };
+            let indent_n = match parent_col {
+                Some(col) if col < body_col => body_col - col,
+                _ => body_col,
+            };
 
             // Check if we need an explicit indentation indicator.
             // Required when the first non-empty line has leading whitespace.
